@@ -141,6 +141,10 @@ struct TxCtx {
     poisoned: Option<u64>,
     runtime_violation: Option<String>,
     ret: Option<(Pubkey, Vec<u8>)>,
+    /// account states as of the last frame boundary (already verified)
+    synced: Vec<Snap>,
+    /// per frame: may the running program write slot i?
+    frame_writable: Vec<Vec<bool>>,
 }
 thread_local! {
     static CTX: RefCell<Option<TxCtx>> = const { RefCell::new(None) };
@@ -215,47 +219,64 @@ struct Snap {
     executable: bool,
 }
 
-fn snap_infos(infos: &[AccountInfo]) -> Vec<Snap> {
-    let mut v: Vec<Snap> = vec![];
-    for a in infos {
-        if let Some(s) = v.iter_mut().find(|s| s.key == *a.key) {
-            s.writable |= a.is_writable;
-            continue;
-        }
-        v.push(Snap {
-            key: *a.key,
-            lamports: a.lamports(),
-            owner: *a.owner,
-            data: a.data.borrow().to_vec(),
-            writable: a.is_writable,
-            executable: a.executable,
-        });
-    }
-    v
+fn snap_slots(c: &TxCtx) -> Vec<Snap> {
+    c.slots
+        .iter()
+        .map(|s| unsafe {
+            let lam = *(c.base.add(s.off_lamports) as *const u64);
+            let dl = *(c.base.add(s.off_datalen) as *const u64) as usize;
+            let owner = *(c.base.add(s.off_owner) as *const Pubkey);
+            Snap {
+                key: s.key,
+                lamports: lam,
+                owner,
+                data: std::slice::from_raw_parts(c.base.add(s.off_data), dl).to_vec(),
+                writable: s.is_writable,
+                executable: s.executable,
+            }
+        })
+        .collect()
 }
 
-/// The Solana runtime's post-instruction account rules for one program frame.
-fn verify_frame(program: &Pubkey, pre: &[Snap], post: &[Snap]) -> Result<(), String> {
+/// Frame boundary (CPI entry, CPI exit, end of the top-level instruction): everything that
+/// changed since the last boundary was done by `program`; check it against the runtime's
+/// account rules, then make the current state the new verified baseline.
+fn boundary(program: &Pubkey) -> Result<(), String> {
+    with_ctx(|c| {
+        let cur = snap_slots(c);
+        let flags = c.frame_writable.last().cloned().unwrap_or_default();
+        let r = verify_frame(program, &c.synced, &cur, &flags);
+        c.synced = cur;
+        r
+    })
+}
+
+/// The Solana runtime's post-instruction account rules for the changes one program made.
+fn verify_frame(program: &Pubkey, pre: &[Snap], post: &[Snap], writable: &[bool]) -> Result<(), String> {
     let mut sum_pre: u128 = 0;
     let mut sum_post: u128 = 0;
-    for (a, b) in pre.iter().zip(post.iter()) {
+    for (i, (a, b)) in pre.iter().zip(post.iter()).enumerate() {
         debug_assert_eq!(a.key, b.key);
         sum_pre += a.lamports as u128;
         sum_post += b.lamports as u128;
         let data_changed = a.data != b.data;
         let owner_changed = a.owner != b.owner;
         let lamports_changed = a.lamports != b.lamports;
-        if !a.writable && (data_changed || owner_changed || lamports_changed) {
+        if !(data_changed || owner_changed || lamports_changed) {
+            continue;
+        }
+        let w = writable.get(i).copied().unwrap_or(false);
+        if !w {
             return Err(format!(
-                "ReadonlyModified: {} modified account {} that is not writable (data {} owner {} lamports {})",
+                "ReadonlyModified: {} modified account {} that is not writable for it (data {} owner {} lamports {})",
                 program, a.key, data_changed, owner_changed, lamports_changed
             ));
         }
-        if a.executable && (data_changed || owner_changed || lamports_changed) {
+        if a.executable {
             return Err(format!("ExecutableModified: {}", a.key));
         }
         if owner_changed {
-            // only the owner may assign, only if the data is zeroed
+            // only the owner may assign, and only when the data is zeroed
             if a.owner != *program {
                 return Err(format!("ModifiedProgramId: {} assigned {} it does not own", program, a.key));
             }
@@ -276,9 +297,6 @@ fn verify_frame(program: &Pubkey, pre: &[Snap], post: &[Snap]) -> Result<(), Str
                     program, a.key, a.owner
                 ));
             }
-        }
-        if a.data.len() != b.data.len() && a.owner != *program {
-            return Err(format!("AccountDataSizeChanged: {}", a.key));
         }
     }
     if sum_pre != sum_post {
@@ -331,12 +349,21 @@ fn cpi_from_infos(ix: &Instruction, infos: &[AccountInfo], seeds: &[&[&[u8]]]) -
         rec_accounts.push((m.pubkey, m.is_signer, m.is_writable));
         callee_infos.push(a);
     }
-    // the callee program account must be known & executable
-    let pre = snap_infos(&callee_infos);
+    // changes the caller made so far are judged against the caller
+    if let Err(m) = boundary(&caller) {
+        with_ctx(|c| c.runtime_violation = Some(format!("{m} (before CPI to {})", ix.program_id)));
+        return Err(ProgramError::InvalidAccountData);
+    }
+    let flags: Vec<bool> = with_ctx(|c| {
+        c.slots
+            .iter()
+            .map(|s| rec_accounts.iter().any(|(k, _, w)| *k == s.key && *w))
+            .collect()
+    });
+    with_ctx(|c| c.frame_writable.push(flags));
     let r = dispatch(&ix.program_id, &callee_infos, &ix.data);
-    let post = snap_infos(&callee_infos);
     let r = match r {
-        Ok(()) => match verify_frame(&ix.program_id, &pre, &post) {
+        Ok(()) => match boundary(&ix.program_id) {
             Ok(()) => Ok(()),
             Err(m) => {
                 with_ctx(|c| c.runtime_violation = Some(format!("cpi frame: {m}")));
@@ -345,6 +372,9 @@ fn cpi_from_infos(ix: &Instruction, infos: &[AccountInfo], seeds: &[&[&[u8]]]) -
         },
         e => e,
     };
+    with_ctx(|c| {
+        c.frame_writable.pop();
+    });
     with_ctx(|c| {
         c.cpis.push(CpiRecord {
             depth,
@@ -554,6 +584,7 @@ pub fn init() {
         set_syscall_stubs(Box::new(Stubs));
         pinocchio::host::set_invoke_signed(pino_invoke);
         solana_invoke::host::set_invoke_signed(cpi_from_infos);
+        solana_msg::host::set_log(|m| Stubs.sol_log(m));
         solana_cpi::host::set_handlers(cpi_from_infos, set_ret, get_ret);
         pinocchio::host::set_clock(pino_clock);
         pinocchio::host::set_rent(pino_rent);
@@ -679,6 +710,7 @@ fn run_job(job: Job) {
         })
         .collect();
 
+    let top_flags: Vec<bool> = slots.iter().map(|s| s.is_writable).collect();
     CTX.with(|c| {
         *c.borrow_mut() = Some(TxCtx {
             store,
@@ -692,11 +724,24 @@ fn run_job(job: Job) {
             poisoned: None,
             runtime_violation: None,
             ret: None,
+            synced: pre.clone(),
+            frame_writable: vec![top_flags],
         })
     });
     whirlpool::verif::start();
-    let code = unsafe { entrypoint(base) };
+    let code = if program_id == whirlpool::ID {
+        unsafe { entrypoint(base) }
+    } else {
+        // any other program (token programs, system) as a top-level instruction: set-up traffic
+        let (pid, accounts, data) = unsafe { solana_program::entrypoint::deserialize(base) };
+        with_ctx(|c| c.prog_stack.clear());
+        match dispatch(pid, &accounts, data) {
+            Ok(()) => 0,
+            Err(e) => u64::from(e),
+        }
+    };
     let hook = whirlpool::verif::take();
+    let final_check = if code == 0 { boundary(&program_id) } else { Ok(()) };
     let ctx = CTX.with(|c| c.borrow_mut().take().unwrap());
     let mut rep = Reply {
         panicked: None,
@@ -727,7 +772,7 @@ fn run_job(job: Job) {
                 });
             }
         }
-        match verify_frame(&program_id, &pre, &post_snaps) {
+        match final_check {
             Err(m) => rep.runtime_violation = Some(m),
             Ok(()) => {
                 // rent state transition rule
